@@ -339,7 +339,9 @@ func (kn *knowledge) opClass(f *types.Func) string {
 		return "call"
 	}
 	sig := f.Type().(*types.Signature)
-	if sig.Results().Len() == 1 {
+	// table constructor: builds a lookup table from one point (the unpackers of
+	// literal tables take packed bytes and belong to E-CONST)
+	if sig.Results().Len() == 1 && sig.Params().Len() == 1 && kn.isPointType(sig.Params().At(0).Type()) {
 		if _, ok := kn.tableClassOf(sig.Results().At(0).Type()); ok {
 			if _, isPtr := sig.Results().At(0).Type().(*types.Pointer); !isPtr {
 				return "ctor"
@@ -1082,9 +1084,13 @@ func (x *extractor) evBuiltin(name string, call *ast.CallExpr) *sval {
 			default:
 				out.role = s.role
 				if e.k == svPoint && e.pl != nil {
-					out.role = strings.TrimSuffix(strings.TrimPrefix(x.roleOf(e.pl.root), "each("), ")")
+					if r := roleInside(x.roleOf(e.pl.root)); r != "" {
+						out.role = r
+					}
 				} else if e.k == svRole {
-					out.role = strings.TrimSuffix(strings.TrimPrefix(e.role, "each("), ")")
+					if r := roleInside(e.role); r != "" {
+						out.role = r
+					}
 				}
 			}
 			return out
